@@ -427,6 +427,11 @@ def decide(prop, r, tier, seed, meta):
         else:
             out.append("UNDECIDED property=%s: its obligations are discharged, but they rest on the contracts of functions they call, and these are no longer established: %s [%s]" % (prop, "; ".join(fl)[:500], why))
             code = 2
+    if prop == "C16":
+        grown = new_outside_panic_sites(em)
+        if grown:
+            out.append("UNDECIDED property=C16: functions that are not under contract gained lexical panic sites (unwrap/expect/panic!/assert!/range slice) since the baseline, which no obligation covers: %s" % "; ".join(grown)[:500])
+            code = 2
     if vac_bad:
         out.append("UNDECIDED property=%s: vacuity probe did not fail (contradictory requires/axioms?) in %s" % (prop, vac_bad[:5]))
         code = 2
@@ -459,15 +464,19 @@ def decide(prop, r, tier, seed, meta):
     ev["coverage"]["dependency_rule"] = dep_note or "no function reached by this property fails a clause"
     return code, out, ev
 
-def outside_panic_sites(em):
+PANIC_LEX = r"\.unwrap\(\)|\.expect\(|panic!|unreachable!|assert!\(|assert_eq!\(|unimplemented!|todo!|\w\[[^\[\]\n]*\.\.[^\[\]\n]*\]"
+
+def outside_panic_sites(em, counts=False):
     """C16 scope statement, recomputed on every run: non-test functions of /repo/src that are NOT under contract and contain
-    a lexical panic site (unwrap/expect/panic!/assert!/unreachable!).  These are outside what the check decides."""
+    a lexical panic site (unwrap/expect/panic!/assert!/unreachable!/range slice `x[a..b]`).  These are outside what the check
+    decides.  With counts=True: {function: number of sites}, compared with contracts/PANIC_BASELINE.json by decide()."""
     import re as _re, glob
     from .extract import Repo
     root = os.path.join(P.REPO, "src")
     under = {(f["file"], f["name"]) for f in em.functions} | {(f["file"], f.get("rename_to")) for f in em.functions}
     repo = Repo(root)
     out = []
+    cnt = {}
     for path in sorted(glob.glob(os.path.join(root, "**", "*.rs"), recursive=True)):
         rel = os.path.relpath(path, root)
         try:
@@ -477,10 +486,23 @@ def outside_panic_sites(em):
         for it in sf.items:
             if it.kind != "fn" or it.name.startswith("test_") or (rel, it.name) in under:
                 continue
-            n = len(_re.findall(r"\.unwrap\(\)|\.expect\(|panic!|unreachable!|assert!\(|assert_eq!\(|unimplemented!|todo!", it.text))
-            if n:
+            n = len(_re.findall(PANIC_LEX, it.text))
+            if counts:
+                cnt["%s: %s%s" % (rel, (it.header + "::") if it.header and it.header != "-" else "", it.name)] = n
+            elif n:
                 out.append("%s: %s%s (%d site%s)" % (rel, (it.header + "::") if it.header and it.header != "-" else "", it.name, n, "" if n == 1 else "s"))
-    return out
+    return cnt if counts else out
+
+def new_outside_panic_sites(em):
+    """Functions NOT under contract whose number of lexical panic sites rose above contracts/PANIC_BASELINE.json (recorded by
+    `./check baseline` on the tree the contracts were written for).  C16 cannot decide such a site (no contract reaches it) and
+    must not pass it silently: decide() turns a non-empty result into UNDECIDED (exit 2), never into a VIOLATION."""
+    bp = os.path.join(P.VERIF, "contracts", "PANIC_BASELINE.json")
+    if not os.path.exists(bp):
+        return []
+    base = json.load(open(bp))
+    now = outside_panic_sites(em, counts=True)
+    return sorted("%s (%d -> %d)" % (k, base.get(k, 0), n) for k, n in now.items() if n > base.get(k, 0))
 
 def evidence(prop, r, tier, seed, meta, obs, panic, calls, new_fail, known_hit, fn_keys, n_obl, n_notdis):
     em = r.em
